@@ -17,7 +17,8 @@ def PREFILTER(o, m):
 RULE = ("the 913 official draft-07 cases first, then generated draft-07 documents (definitions, dependencies in both forms, items in "
         "both forms, additionalItems, $id-as-anchor, $ref with siblings) x 6 instances, roots declaring each supported and several "
         "unsupported $schema values, remote documents with and without their own $schema referenced from the root or from a "
-        "subschema. Non-trivial: >= 2 keywords or a remote document; distinct = distinct operation text")
+        "subschema; fan-in: one shared definition of failing-and-swallowed $ref alternatives applied 2..16 times at one instance location. "
+        "Non-trivial: >= 2 keywords or a remote document; distinct = distinct operation text")
 TRUSTED = ["regular expressions are a parameter of the model"]
 ASSUMPTIONS = ["draft-07 vocabulary only (2020-12-only keywords are outside the quantifier)"]
 
@@ -133,6 +134,67 @@ def later_draft_case(rng):
     return {"op": "decorate", "args": {"schema": doc, "schema2": doc2, "insts": insts}, "meta": {"kw": 3, "later": k}}
 
 
+FAN_LEAVES = [
+    (Obj([("type", "string")]), "s"), (Obj([("type", "integer")]), gs.Num("3")), (Obj([("type", "array")]), [gs.Num("1")]),
+    (Obj([("type", "object")]), Obj([("a", gs.Num("1"))])), (Obj([("type", "null")]), None), (Obj([("type", "boolean")]), True),
+    (Obj([("const", "k")]), "k"), (Obj([("minimum", gs.Num("5"))]), gs.Num("7.5")), (Obj([("required", ["z"])]), Obj([("z", None)])),
+    (Obj([("maxLength", gs.Num("0"))]), ""), (Obj([("enum", [gs.Num("0"), []])]), []), (Obj([("minItems", gs.Num("2"))]), ["s", "s"]),
+]
+
+
+def fanin_case(rng):
+    """Fan-in at ONE instance location: a shared definition `u` that chooses among per-type definitions through $refs whose failures
+    are swallowed (anyOf / oneOf / an if-else ladder / not), optionally behind a second shared definition `v` that applies `u` twice,
+    and a use site that applies it N times in place (allOf of N $refs, N = 2..16) — at the root, under properties / items /
+    additionalProperties, or inside a schema-form dependency. Every application is the same question about the same value, so the verdict
+    for N applications is the verdict for one: in particular an instance that matches only a LATE alternative (all earlier $refs fail
+    first) stays valid however often failing references were followed on the way."""
+    k = rng.randint(2, 5)
+    leaves = rng.sample(FAN_LEAVES, k)
+    defs = Obj([("t%d" % i, sch) for i, (sch, _) in enumerate(leaves)])
+    refs = [Obj([("$ref", "#/definitions/t%d" % i)]) for i in range(k)]
+    form = rng.choice(["anyOf", "anyOf", "oneOf", "if", "not"])
+    if form in ("anyOf", "oneOf"):
+        u = Obj([(form, refs)])
+    elif form == "if":
+        u = refs[-1]
+        for r_ in reversed(refs[:-1]):
+            u = Obj([("if", r_), ("then", rng.choice([True, Obj()])), ("else", u)])
+    else:
+        # valid exactly when every alternative but the last FAILS and the last holds
+        u = Obj([("allOf", [Obj([("not", r_)]) for r_ in refs[:-1]] + [refs[-1]])])
+    defs.set("u", u)
+    tgt = "#/definitions/u"
+    if rng.random() < 0.35:
+        v = rng.choice([Obj([("allOf", [Obj([("$ref", tgt)]), Obj([("$ref", tgt)])])]),
+                        Obj([("anyOf", [refs[0], Obj([("$ref", tgt)])])]),
+                        Obj([("if", refs[0]), ("else", Obj([("$ref", tgt)]))])])
+        defs.set("v", v)
+        tgt = "#/definitions/v"
+    n = rng.choice([2, 3, 5, 7, 8, 9, 10, 11, 12, 14, 16])
+    uses = [Obj([("$ref", tgt)]) for _ in range(n)]
+    if rng.random() < 0.3:
+        uses[rng.randrange(n)] = rng.choice([True, Obj([("$ref", "#/definitions/u")]), Obj([("anyOf", [refs[-1], True])])])
+    site = Obj([("allOf", uses)])
+    where = rng.choice(["root", "root", "props", "items", "addl", "dep"])
+    vals = [x for _, x in leaves] + [rng.choice([gs.Num("0.5"), "zz", False, [None, None, None]])]
+    # the late alternatives first: they are the ones reached only after failing references
+    vals = vals[::-1] if rng.random() < 0.5 else vals
+    if where == "root":
+        body, insts = site.kvs, vals
+    elif where == "props":
+        body, insts = [("properties", Obj([("p", site)]))], [Obj([("p", x)]) for x in vals] + [Obj([("q", vals[0])])]
+    elif where == "items":
+        body, insts = [("items", site)], [[x] for x in vals] + [[vals[0], vals[-1]], []]
+    elif where == "addl":
+        body, insts = [("additionalProperties", site)], [Obj([("p", x)]) for x in vals] + [Obj([("p", vals[0]), ("q", vals[1])])]
+    else:
+        body = [("properties", Obj([("p", Obj([("dependencies", Obj([("z", site), ("a", site)]))]))]))]
+        insts = [Obj([("p", x)]) for x in vals]
+    root = Obj([("$schema", rng.choice(gs.D7_URIS)), ("definitions", defs)] + list(body))
+    return {"op": "validate", "args": {"schema": root, "insts": insts}, "meta": {"kw": 4 + k, "fanin": n, "form": form, "where": where}}
+
+
 def gen(rng, tier, n):
     ops = suite.suite_ops("draft7")
     depth = 3 if tier == "quick" else 4
@@ -143,6 +205,9 @@ def gen(rng, tier, n):
                 ops.append(later_draft_case(rng))      # known finding D27: drawn rarely
                 continue
             ops.append(remote_case(rng))
+            continue
+        if 0.33 <= r < 0.38:
+            ops.append(fanin_case(rng))
             continue
         if r < 0.33 and r >= 0.27:
             if rng.random() < 0.3:
